@@ -4,6 +4,7 @@ package netty
 
 import (
 	"context"
+	"fmt"
 	"strconv"
 	"sync/atomic"
 	"time"
@@ -118,4 +119,11 @@ func VerifReadIdleHandler(idleTime time.Duration) ChannelInboundHandler {
 }
 func VerifWriteIdleHandler(idleTime time.Duration) ChannelOutboundHandler {
 	return &writeIdleHandler{idleTime: idleTime}
+}
+
+// verifYieldObj names the object (its address) in the hook point: "ri.decide@0xc000012345".
+func verifYieldObj(point string, obj interface{}) {
+	if s := verifSched; s != nil {
+		s.Yield(point+"@"+fmt.Sprintf("%p", obj), nil)
+	}
 }
